@@ -1169,6 +1169,21 @@ def binding(ctx):
             a, b = ch[0][2][0], ch[0][2][1]
             oks = is_call(a, 'iter::once') and any(strip(x) == ('field', ('arg', 1, 'self'), 'path') or (isinstance(x, tuple) and x[0] == 'field' and x[2] == 'path') for x in walk(a)) and \
                 bool(find_calls(b, 'Module::uses')) and not any(re.search(r'Iterator::(rev|skip|take|filter|step_by|map_while|scan|take_while|skip_while|fuse|cycle)$', c_[3]) for c_ in calls_in(e))
+            # the imports enter the scope as they are: nothing is added next to them or derived from them on the way
+            for c_ in calls_in(b):
+                if re.search(r'Iterator::(flat_map|filter_map|flatten|zip|chain|inspect|map_while|scan)$', c_[3]):
+                    oks = False
+                if c_[3].endswith('Iterator::map') and len(c_[2]) == 2:
+                    pf_ = predicate_fn(P, c_[2][1])
+                    ex_ = [strip(x_['expr']) for x_ in pf_.exits()] if pf_ is not None else []
+                    pure_ = len(ex_) == 1 and not pf_.switches()
+                    if pure_:
+                        v_ = ex_[0]
+                        while v_[0] == 'call' and v_[2] and re.search(r'(::clone|::to_owned|Deref>::deref|::borrow|::as_ref)$', v_[1]):
+                            v_ = strip(v_[2][0])
+                        pure_ = v_[0] in ('arg', 'carg')
+                    if not pure_:
+                        oks = False
     ctx.ob(['C11', 'C19', 'C13'], 'R-EXPR', 'C11-D3|scope-order', oks, 'scope() = own module path followed by the uses in source order', loc(sc[0].span) if sc else '')
     us = [f for f in P.fns.values() if f.id.endswith('module::Module::uses')]
     oku = bool(us) and len(us[0].exits()) == 1 and any(isinstance(x, tuple) and x[0] == 'field' and x[2] == 'uses' for x in walk(us[0].exits()[0]['expr']))
